@@ -14,6 +14,7 @@ mod fs;
 mod ring;
 mod sock;
 mod sys;
+mod peek;
 mod tcount;
 mod teardown;
 
@@ -202,6 +203,7 @@ pub fn run(ctx: &Ctx) {
     // (1) teardown
     teardown::run(ctx);
     tcount::run(ctx);
+    peek::run(ctx);
 
     // (2) one scenario per constructor, same case type and sub-check name as the generated ones
     if !ctx.is_replay() {
